@@ -219,6 +219,9 @@ def sample_kwargs(cfg: dict, rng, **extra):
                   sampler_kwargs={"n_steps": cfg["kernel_steps"]})
     else:
         kw.update(sampler_kwargs={"nsteps": cfg["kernel_steps"], "progress": False})
+        if cfg.get("emcee_moves"):
+            # user-supplied proposal moves (an option of emcee.EnsembleSampler that aspire forwards)
+            kw["sampler_kwargs"]["moves"] = [("stretch", 0.8), ("differential-evolution", 0.2)]
     if cfg["checkpoint_every"] is not None:
         kw["checkpoint_every"] = cfg["checkpoint_every"]
     kw.update(extra)
